@@ -281,5 +281,16 @@ impl PagedResults {
 //@end
 }
 
+// PagedResults::new: the page size every request of this adapter will carry is the constructor's argument; no handle yet
+pub const PhantomData: PhantomS = PhantomS { };
+//@lift name=PagedResults::new file=src/adapters.rs impl="impl<S, A> PagedResults<S, A>" fn=new
+//@ sub "fn new(page_size: i32) -> Self" => "fn paged_results_new(page_size: i32) -> PagedResults"
+//@ sub "Self {" => "PagedResults {"
+//@ sub "String::from(\"\")" => "verif_string_of(\"\")" count=*
+//@ ret r
+//@ spec
+    ensures r.page_size == page_size, r.ldap is None, r.attrs is None, //# C16.the_adapter_is_built_with_the_requested_page_size_and_no_saved_handle
+//@end
+
 } // verus!
 fn main() {}
